@@ -38,7 +38,9 @@ def gen_nodes(g, k=K, gids=None, extra_prop=None, min_nodes=0):
             attrs['NodeID'] = g.atom(f'nid{i}')
             attrs['Class'] = g.atom(f'cls{i}')
             attrs['Type'] = g.atom(f'typ{i}')
-            if extra_prop is not None:
+            if i <= 2:
+                attrs['Name'] = g.atom(f'nam{i}')
+            if extra_prop is not None and i == 1:
                 if g.choice(2, f'node {i} has {extra_prop}?') == 0:
                     attrs[extra_prop] = g.atom(f'xp{i}')
             nodes.append((i, attrs))
@@ -51,7 +53,10 @@ def gen_edges(g, keys, same_graph=None):
         if same_graph is not None and not same_graph(a, b):
             continue
         if g.choice(2, f'edge {a}-{b}?') == 0:
-            edges.append((a, b, {'Class': g.atom(f'rel{a}{b}')}))
+            attrs = {'Class': g.atom(f'rel{a}{b}')}
+            if not edges and g.choice(2, f'edge {a}-{b} has Name?') == 0:
+                attrs['Name'] = g.atom(f'enam{a}{b}')
+            edges.append((a, b, attrs))
     return edges
 
 
@@ -67,7 +72,7 @@ def build_graph(nodes, edges):
     return G
 
 
-def gen_shared_world(g, k=K, extra_prop=None, cross_edges=False):
+def gen_shared_world(g, k=K, extra_prop=None, cross_edges=False, slack=False):
     """shared store with graphs gA (the addressed one) and gB"""
     w = World()
     w.gA, w.gB = g.atom('gA'), g.atom('gB')
@@ -76,7 +81,7 @@ def gen_shared_world(g, k=K, extra_prop=None, cross_edges=False):
     gid = {n: a['GraphID'] for n, a in nodes}
     edges = gen_edges(g, [n for n, _ in nodes], None if cross_edges else (lambda a, b: gid[a] is gid[b]))
     w.store_graph = build_graph(nodes, edges)
-    w.start_id = k + 1 + g.choice(2, 'id counter slack')
+    w.start_id = k + 1 + (g.choice(2, 'id counter slack') if slack else 0)
     w.store = PObj(SHARED, dict(graphs=w.store_graph, start_id=w.start_id, log=None, lock=LockVal()))
     w.flavour = 'shared'
     w.nodes, w.edges = nodes, edges
@@ -99,7 +104,9 @@ def gen_disjoint_world(g, k=K, extra_prop=None):
             if g.choice(2, f'{name}: node {i} present?') == 0:
                 attrs = dict(GraphID=gid, NodeID=g.atom(f'nid{name}{i}'), Class=g.atom(f'cls{name}{i}'),
                              Type=g.atom(f'typ{name}{i}'))
-                if extra_prop is not None and g.choice(2, f'{name}{i} has {extra_prop}?') == 0:
+                if i <= 2:
+                    attrs['Name'] = g.atom(f'nam{name}{i}')
+                if extra_prop is not None and i == 1 and g.choice(2, f'{name}{i} has {extra_prop}?') == 0:
                     attrs[extra_prop] = g.atom(f'xp{name}{i}')
                 nodes.append((i, attrs))
         edges = gen_edges(g, [n for n, _ in nodes])
@@ -259,6 +266,7 @@ def bag_eq(result, expected):
 
 
 def as_list(x):
-    if isinstance(x, PList):
+    from pyvc.values import PSet
+    if isinstance(x, (PList, PSet)):
         return list(x.items)
     return list(x)
